@@ -22,6 +22,23 @@ def run_one(mod, R, rec, subst=False):
     return last
 
 
+def _import_all():
+    """import every module of the repository package now (so that substitution of hash primitives reaches all of them)"""
+    import pkgutil
+    pkg = importlib.import_module("btc_hd_wallet")
+    for m in pkgutil.iter_modules(pkg.__path__):
+        if m.name == "__main__" or m.ispkg and m.name != "bip39_wordlist":
+            continue
+        try:
+            importlib.import_module("btc_hd_wallet." + m.name)
+        except Exception:
+            pass
+    try:
+        importlib.import_module("btc_hd_wallet.__main__")
+    except BaseException:
+        pass
+
+
 def _run_one(mod, R, rec, subst, fill):
     from sx.harness import ConcEnv, load_repo
     from sx.core import Infeasible
@@ -29,6 +46,7 @@ def _run_one(mod, R, rec, subst, fill):
     # every attempt starts from freshly imported repository modules: process-wide state left by an earlier attempt
     # (memo tables, class-level caches) must not hide or fake a history-dependent failure
     R = load_repo(False)
+    _import_all()
     if hasattr(mod, "setup_native"):
         mod.setup_native(R)
     E = ConcEnv(rec["witness"], rec.get("params"), fill)
@@ -101,6 +119,7 @@ def main():
     from sx.harness import load_repo
     mod = importlib.import_module("props." + prop_id)
     R = load_repo(False)
+    _import_all()
     if hasattr(mod, "setup_native"):
         mod.setup_native(R)
     if batch:
